@@ -45,11 +45,11 @@ type chainPlan struct {
 
 func run(c *vf.Ctx) {
 	var plans []chainPlan
-	sets := [][]string{{"single", "multi", "unknown"}, {"multisig", "session", "fees"}}
+	sets := [][]string{{"single", "unknown"}, {"multi", "fees"}, {"multisig"}, {"session"}}
 	reps := c.N(1, 3)
 	for rep := 0; rep < reps; rep++ {
 		for si, gs := range sets {
-			plans = append(plans, chainPlan{id: fmt.Sprintf("%c%d", 'A'+si, rep), groups: gs, seed: uint64(c.Seed)*100 + uint64(rep*2+si)})
+			plans = append(plans, chainPlan{id: fmt.Sprintf("%c%d", 'A'+si, rep), groups: gs, seed: uint64(c.Seed)*100 + uint64(rep*len(sets)+si)})
 		}
 	}
 	c.Parallel(len(plans), 6, 1500, func(i int, rng *rand.Rand) {
@@ -170,6 +170,10 @@ func runChain(c *vf.Ctx, p chainPlan, rng *rand.Rand, idx int) {
 	lim := 25
 	if thorough {
 		lim = 0
+	} else if !has(p.groups, "single") && !has(p.groups, "session") {
+		// quick: a restart costs as much as a chain start; the two chains with the most identity kinds do it
+		c.Logf("chain %s: done at height %d", p.id, e.Ch.Height)
+		return
 	}
 	c.Logf("chain %s: restart + resubmission of %d accepted txs (height %d)", p.id, len(r.kept), e.Ch.Height)
 	r.replayAll(lim)
@@ -210,7 +214,7 @@ func groupSingle(r *runner, w *world, nf, nb int, thorough bool) {
 	r.play(r.tplSend("send-ed25519-first-use", w.erin, w.bob.addr), r.mutations(r.tplSend("x", w.erin, w.bob.addr), w.zed, nf, nb, false))
 	// public key now stored: the same family again (public-key checks take the other branch)
 	t := r.tplSend("send-secp256k1", w.alice, w.carol.addr)
-	r.play(t, r.mutations(t, w.zed, nf, nb, thorough && r.id[0] == 'A' && r.id[1] == '0'))
+	r.play(t, r.mutations(t, w.zed, nf, nb, thorough && r.id[1] == '0'))
 	t = r.tplSend("send-ed25519", w.erin, w.carol.addr)
 	r.play(t, r.mutations(t, w.zed, nf, nb, thorough && r.id[1] == '1'))
 	t = r.tplCall("call-secp256k1", w.alice)
